@@ -83,6 +83,17 @@ pub fn run_lex(src: &str) -> Outcome {
 const LEXTOKS: &[&str] = &["%%", "\n", "\n", " ", "\t", "a", "'a'", "\"b\"", ";", "<", ">", "+", "AA", "%s", "%x", ",", "\\", "\u{0085}", "\u{200E}", "\u{2028}", "//", "é", "[", "*", "\r", "%grmtools{nest_limit: 4294967296}\n", "%grmtools{size_limit: 18446744073709551615, dfa_size_limit: 5}\n", "%grmtools{!octal, nest_limit: 3}\n"];
 
 pub fn search_lex(tier: &str) -> Option<Value> {
+    // a small exhaustive grid first: rule lines whose regex ends in backslashes and white space of every class
+    let wss = ["", " ", "\t", "\u{0085}", "\u{200E}", "\u{200F}", "\u{2028}", "\u{000B}", "\r"];
+    for pre in ["%%\n", "%x AA\n%%\n<AA>", "%%\n<INITIAL>"] {
+        for re_ in ["a", "a\\", "a\\\\", "a\\\\\\", "\\", "[a-z]+\\", "é\\"] {
+            for w1 in wss { for w2 in wss { for name in ["'A'", "\"b\"", ";", "", "<AA>", "'é'"] { for tail in ["\n", "", " \n", "\u{2028}"] {
+                let s = format!("{}{}{}{}{}{}", pre, re_, w1, w2, name, tail);
+                let o = run_lex(&s);
+                if o.fails { return Some(witness("c12_lex", json!({"text": s}), &o)); }
+            } } } }
+        }
+    }
     let n = if tier == "thorough" { 400_000 } else { 40_000 };
     let mut st: u64 = 0x9E3779B97F4A7C15;
     let mut next = |m: usize| { st = st.wrapping_mul(6364136223846793005).wrapping_add(1442695040888963407); ((st >> 33) as usize) % m };
